@@ -114,6 +114,9 @@ func famSesLinger(t *testing.T, r *Rec) {
 				if (!needsRead || readHappened || then == "silence" || then == "shutdown" || then == "discard") && (last.states[0][0] != "closed" || closes != 1) {
 					r.Violate("C12", fmt.Sprintf("C12/graceful-close-not-completed/%s/%s", v.transport, then),
 						fmt.Sprintf("graceful close (buffered=%v) followed by %s: session is %s with %d close events", buffered, then, last.states[0][0], closes), g.lines)
+					// the session stopped being open (Close was called): it owes the application exactly one close event
+					r.Violate("C03", fmt.Sprintf("C03/left-open-without-close-event/%s/%s/closes=%d", v.transport, then, closes),
+						fmt.Sprintf("the session stopped being open (graceful close, buffered=%v) and, after %s, is %s with %d close events, want closed with exactly one", buffered, then, last.states[0][0], closes), g.lines)
 					if then == "silence" {
 						r.Violate("C07", fmt.Sprintf("C07/silent-peer-not-closed/closing-session/%s/proto=%d", v.transport, v.proto),
 							fmt.Sprintf("a session waiting to close gracefully (buffered=%v) whose peer stays silent is %s %d ms after the heartbeat deadline", buffered, last.states[0][0], 60), g.lines)
